@@ -786,3 +786,23 @@ Proof.
   - intros E. pose proof (skipn_length k wire) as L. rewrite E in L. cbn [length] in L. lia.
   - exact Hcut.
 Qed.
+
+(* ====================================================================== *)
+(* interim responses do not eat the header budget of the final response   *)
+(* ====================================================================== *)
+
+(* MaxResponseHeaderBytes is a budget per response head: when every head of the exchange - each
+   interim response and the final response - is within the limit BY ITSELF, the limited reader
+   delivers exactly what the unlimited one delivers, however large the heads are together. *)
+Theorem budget_is_per_head meth bufsize lim : forall fuel k s,
+  heads_fit fuel meth bufsize lim s = true ->
+  read_final_lim fuel meth bufsize lim k s = read_final fuel meth bufsize k s.
+Proof.
+  induction fuel as [|f IH]; intros k s H; [reflexivity|].
+  cbn [read_final_lim read_final heads_fit] in *.
+  destruct (read_response_head meth bufsize s) as [e|[r rest]]; [reflexivity|].
+  apply andb_true_iff in H as [H1 H2]. apply Nat.leb_le in H1.
+  destruct (Nat.ltb_spec lim (length s - length rest)); [lia|].
+  destruct (is_1xx_nonterminal (r_code r)); [|reflexivity].
+  destruct (max_1xx <? S k); [reflexivity|]. now apply IH.
+Qed.
